@@ -4,14 +4,17 @@
 //  (c) cache dropped while the source keeps its EventSender: the reloader thread is gone or asleep   (P3)
 //  (d) EventSender dropped while the cache is alive: no spinning, hot_reload() still returns         (P3)
 //  (e) one event, then nothing: the reloader thread sleeps                                           (P4)
+//  (g) hot_reload() returns only after the reloads it triggered are finished (slow source)               (P1, order)
 //  (f) cache dropped under a sustained stream of events: the thread still notices and goes away      (P5)
 use assets_manager::{AssetCache, Asset, loader, source::{Source, DirEntry, FileContent, OwnedDirEntry}, hot_reloading::EventSender, BoxedError};
 use std::{io, sync::{Arc, Mutex, mpsc}, time::Duration};
 
 #[derive(Clone, Default)]
-struct Mem { keep: bool, ev: Arc<Mutex<Option<EventSender>>> }
+struct Mem { keep: bool, ev: Arc<Mutex<Option<EventSender>>>, slow: Arc<Mutex<Option<String>>> }
 impl Source for Mem {
-    fn read(&self, id: &str, _ext: &str) -> io::Result<FileContent> { if id == "a" { Ok(FileContent::Buffer(b"1".to_vec())) } else { Err(io::ErrorKind::NotFound.into()) } }
+    fn read(&self, id: &str, _ext: &str) -> io::Result<FileContent> {
+        if id == "a" { if let Some(v) = self.slow.lock().unwrap().clone() { std::thread::sleep(Duration::from_millis(150)); return Ok(FileContent::Buffer(v.into_bytes())); } }
+        if id == "a" { Ok(FileContent::Buffer(b"1".to_vec())) } else { Err(io::ErrorKind::NotFound.into()) } }
     fn read_dir(&self, _id: &str, _f: &mut dyn FnMut(DirEntry)) -> io::Result<()> { Err(io::ErrorKind::NotFound.into()) }
     fn exists(&self, _e: DirEntry) -> bool { false }
     fn make_source(&self) -> Option<Box<dyn Source + Send>> { Some(Box::new(self.clone())) }
@@ -101,6 +104,20 @@ fn main() {
         drop(cache);
         let noticed = feeders.into_iter().map(|h| h.join().unwrap()).fold(true, |a, b| a && b);
         if !noticed { bad.push("(f) cache dropped under a sustained event stream: the reloader thread kept consuming events for 2 s and never stopped".into()); }
+    }
+    // (g)
+    {
+        let src = Mem { keep: true, ..Default::default() };
+        let cache = AssetCache::with_source(src.clone());
+        let a = cache.load::<X>("a").unwrap();
+        *src.slow.lock().unwrap() = Some("2".into());
+        src.ev.lock().unwrap().as_ref().unwrap().send(OwnedDirEntry::File("a".into(), "x".into())).unwrap();
+        std::thread::sleep(Duration::from_millis(200));
+        cache.hot_reload();
+        let v = *a.read();
+        if v != X(2) { bad.push(format!("(g) hot_reload() returned before the reload it triggered was finished: value {:?} instead of X(2)", v)); }
+        *src.slow.lock().unwrap() = None;
+        std::mem::forget(cache);
     }
     // (b)
     {
